@@ -39,11 +39,10 @@ func (r *Run) newSym(label string, w uint8) *sym.Term {
 func (r *Run) input(label string, w uint8, k ikind) Value {
 	if r.concreteMode {
 		n := len(r.inputs)
-		key := fmt.Sprintf("%s#%d", label, n)
 		r.inputs = append(r.inputs, inputSym{label: label, t: r.C.Const(0, 8)})
-		v, ok := r.concrete[key]
-		if !ok {
-			v = r.concrete[label]
+		var v uint64
+		if n < len(r.concreteIn) {
+			v = r.concreteIn[n]
 		}
 		if w == 0 {
 			return v != 0
@@ -51,6 +50,19 @@ func (r *Run) input(label string, w uint8, k ikind) Value {
 		return k.norm(v & maskW(w))
 	}
 	return r.newSym(label, w)
+}
+
+// concreteChoice returns the next recorded choice (concrete mode), 0 if out of range.
+func (r *Run) concreteChoice(n int) int {
+	var v uint64
+	if r.chPos < len(r.concreteCh) {
+		v = r.concreteCh[r.chPos]
+	}
+	r.chPos++
+	if int(v) >= n || int(v) < 0 {
+		return 0
+	}
+	return int(v)
 }
 
 func registerNatives(p *Program) {
@@ -106,12 +118,7 @@ func registerNatives(p *Program) {
 			panic(pathEnd{})
 		}
 		if r.concreteMode {
-			v := r.input(str(a[0]), 64, ikind{64, true}).(uint64)
-			c := int64(v)
-			if c < lo || c > hi {
-				c = lo
-			}
-			return uint64(c)
+			return uint64(lo + int64(r.concreteChoice(int(hi-lo+1))))
 		}
 		c := r.Choose(int(hi-lo+1), "choice", str(a[0]))
 		return uint64(lo + int64(c))
@@ -119,11 +126,7 @@ func registerNatives(p *Program) {
 	rt("Choice", func(r *Run, g *Goroutine, a []Value) Value {
 		n := int(a[1].(uint64))
 		if r.concreteMode {
-			v := r.input(str(a[0]), 64, ikind{64, true}).(uint64)
-			if int(v) >= n {
-				v = 0
-			}
-			return v
+			return uint64(r.concreteChoice(n))
 		}
 		return uint64(r.Choose(n, "choice", str(a[0])))
 	})
@@ -168,6 +171,9 @@ func registerNatives(p *Program) {
 	})
 	rt("Reach", func(r *Run, g *Goroutine, a []Value) Value {
 		r.reached[str(a[0])]++
+		if r.concreteMode {
+			r.observed = append(r.observed, "reach:"+str(a[0]))
+		}
 		return nil
 	})
 	rt("Tag", func(r *Run, g *Goroutine, a []Value) Value {
@@ -175,7 +181,9 @@ func registerNatives(p *Program) {
 		return nil
 	})
 	rt("Observe", func(r *Run, g *Goroutine, a []Value) Value {
-		r.observed = append(r.observed, str(a[0])+"="+r.formatArgs(g, a[1].(Slice)))
+		if r.concreteMode {
+			r.observed = append(r.observed, "obs:"+str(a[0])+"="+r.formatArgs(g, a[1].(Slice)))
+		}
 		return nil
 	})
 	rt("InEngine", func(r *Run, g *Goroutine, a []Value) Value { return true })
